@@ -516,6 +516,43 @@ def e2e(ctx, rng, gs, n_reps):
             ctx.violation("probe: lat-lon vario_estimate vs great-circle pair enumeration",
                           "great-circle variogram differs from enumerating the pairs with haversine distance * geo_scale",
                           dict(case, expected_counts=bcnt.tolist(), got_counts=np.asarray(c).tolist()), key="vario_estimate:latlon:" + mode)
+    # the `mask` argument in every form a caller may write it (bool array / bool list / 0-1 integer array or list / n-D shape
+    # of a structured field), alone and together with masked-array fields and NaNs; both public names of the estimator
+    for rep in range(5 * n_reps):
+        dim = int(rng.integers(1, 4))
+        n = int(rng.choice([6, 9, 14]))
+        pos = rng.normal(size=(dim, n)) * 2
+        nf = int(rng.integers(1, 3))
+        f = rng.normal(size=(nf, n))
+        mk = rng.random(size=n) < 0.35
+        mk[:2] = False
+        own = (rng.random(size=(nf, n)) < 0.2) if rng.random() < 0.5 else np.zeros((nf, n), bool)
+        own[:, :2] = False
+        nanm = (rng.random(size=(nf, n)) < 0.15) if rng.random() < 0.4 else np.zeros((nf, n), bool)
+        nanm[:, :2] = False
+        form = ["bool-array", "bool-list", "int64", "int32", "int-list", "uint8"][int(rng.integers(6))]
+        marg = {"bool-array": mk.copy(), "bool-list": [bool(x) for x in mk], "int64": mk.astype(np.int64), "int32": mk.astype(np.int32),
+                "int-list": [int(x) for x in mk], "uint8": mk.astype(np.uint8)}[form]
+        data = np.where(nanm, np.nan, f)
+        inp = [np.ma.array(data[i], mask=own[i]) for i in range(nf)] if own.any() else data
+        edges = gen_edges(rng, int(rng.integers(2, 5)), first_zero=True)
+        est = "matheron" if rng.random() < 0.5 else "cressie"
+        fn, fname = [(gs.vario_estimate, "gs.vario_estimate"), (gs.vario_estimate_unstructured, "gs.vario_estimate_unstructured"),
+                     (gs.variogram.vario_estimate_unstructured, "gs.variogram.vario_estimate_unstructured")][int(rng.integers(3))]
+        ctx.count(("e2e-mask-arg", dim, n, nf, form, bool(own.any()), bool(nanm.any()), est), hist=dict(entry="vario_estimate-mask", form=form))
+        case = dict(entry=fname, mask_form=form, est=est, arrays=describe(f, edges, pos), mask=mk.tolist(), field_masks=own.tolist(), nan=nanm.tolist())
+        try:
+            _, g, c = fn(tuple(pos), inp if (nf > 1 or own.any()) else data[0], edges, estimator=est, mask=marg, return_counts=True)
+        except Exception as e:
+            ctx.violation("probe: vario_estimate(mask=...) raised", repr(e), case, key="vario_estimate:mask-arg-exception:" + form)
+            continue
+        gone = own | nanm
+        keep = ~(mk | gone.all(axis=0))
+        bg, bcnt = brute_unstructured(np.where(gone, np.nan, f)[:, keep], edges, pos[:, keep], est[0])
+        if not ((bcnt == c).all() and rel_close(bg, g)) and not near_edge(pos, edges, "e"):
+            ctx.violation("probe: vario_estimate(mask=...) vs pair enumeration over the unmasked points",
+                          "masked points (mask argument as %s) must be treated like removed points" % form,
+                          dict(case, expected_counts=bcnt.tolist(), got_counts=np.asarray(c).tolist()), key="vario_estimate:mask-arg:" + form)
     # the `angles` argument (2-D azimuth, 3-D azimuth + inclination)
     for rep in range(2 * n_reps):
         dim = int(rng.integers(2, 4))
@@ -554,7 +591,14 @@ def e2e(ctx, rng, gs, n_reps):
             data[miss] = -999.0
             kw["no_data"] = -999.0
         inp = np.ma.array(data, mask=m) if masked else data
-        g = gs.vario_estimate_axis(inp, direction=axis, estimator=est, **kw)
+        # every public name of the along-axis estimator (the legacy names are part of the API), keyword and positional use
+        ax_fn, ax_name = [(gs.vario_estimate_axis, "gs.vario_estimate_axis"), (gs.vario_estimate_structured, "gs.vario_estimate_structured"),
+                          (gs.variogram.vario_estimate_axis, "gs.variogram.vario_estimate_axis"),
+                          (gs.variogram.vario_estimate_structured, "gs.variogram.vario_estimate_structured")][int(rng.integers(4))]
+        if kw and rng.random() < 0.5:
+            g = ax_fn(inp, axis, est, kw["no_data"])
+        else:
+            g = ax_fn(inp, direction=axis, estimator=est, **kw)
         m = m | miss
         if not m.any():
             m = None
@@ -562,7 +606,7 @@ def e2e(ctx, rng, gs, n_reps):
         m2 = None if m is None else np.swapaxes(m, 0, axis).reshape(shape[axis], -1)
         if not rel_close(brute_axis(f2, m2, est[0]), g):
             ctx.violation("probe: vario_estimate_axis vs lag enumeration", "axis estimator differs from definition",
-                          dict(entry="vario_estimate_axis", axis=axis, est=est, arrays=describe(fld) + ([m.tolist()] if m is not None else [])),
+                          dict(entry=ax_name, axis=axis, est=est, missing=missing, arrays=describe(fld) + ([m.tolist()] if m is not None else [])),
                           key="vario_estimate_axis:brute")
 
 
